@@ -96,6 +96,17 @@ def finish_slots(c):
     return c
 
 
+def str_bytes(c, a):
+    """the bytes of the C string a string-valued actual denotes: ["str", i] | ["at", "@S<i>+<off>" | "@EDGE-<k>"]"""
+    if a[0] == "str":
+        return bytes.fromhex(c["strings"].get(a[1], c["strings"].get(str(a[1]))))
+    t = a[1]
+    if t.startswith("@EDGE"):
+        return b"E" * (int(t[6:]) - 1)
+    i, off = t[2:].split("+")
+    return bytes.fromhex(c["strings"].get(int(i), c["strings"].get(i)))[int(off):]
+
+
 def groups_of(c):
     """the -A / -R options of a case in the order they are given: [{"opt": "A"|"R", "regex": bool, "specs": [...]}]"""
     if "groups" in c:
@@ -314,7 +325,7 @@ class Gen:
                     name, sfx = "arg%d" % r.randrange(1, 19), "%%stack+%d" % loc[1]
                 else:
                     how = "again"
-            if fam in ("str", "null", "bad"):
+            if fam in ("str", "at", "null", "bad"):
                 f = r.choice(["s", "s", "p", "x"])
             elif fam == "obj":
                 f = r.choice(["S", "p", "x"])
@@ -328,7 +339,7 @@ class Gen:
         n = r.randrange(1, 4)
         for _ in range(n):
             cls = r.choice(["index", "float", "float", "reg", "stack"])
-            if rc is not None and rc[0] in ("str", "null", "bad"):
+            if rc is not None and rc[0] in ("str", "at", "null", "bad"):
                 f = r.choice(["s", "p", "x"])
             elif rc is not None and rc[0] == "struct":
                 f = "x"
@@ -466,8 +477,25 @@ class Gen:
             self._c["actual"].append(["bad", tok])
             self._c["tags"].append("str=unreadable")
         else:
+            q = r.random()
+            if q < 0.08 and n is None:
+                # a pointer into the readable page in front of the PROT_NONE page: its last byte (the NUL), a few
+                # characters in front of it, its first byte
+                k = r.choice([1, 1, 2, 4, 50, 99, 100, 4096])
+                self.put(where, "@EDGE-%d" % k)
+                self._c["actual"].append(["at", "@EDGE-%d" % k])
+                self._c["tags"].append("str=edge-%s" % (k if k in (1, 2, 4096) else "k"))
+                self._c["specs"].append(name + "/s" + sfx)
+                return
             s = self.string(n)
             i = self.new_string(s)
+            if q < 0.16 and n is None and len(s) > 0:
+                off = r.choice([1, len(s), len(s) - 1, r.randrange(len(s) + 1)])     # inside the string, up to its NUL
+                self.put(where, "@S%d+%d" % (i, off))
+                self._c["actual"].append(["at", "@S%d+%d" % (i, off)])
+                self._c["tags"].append("str=inner-pointer")
+                self._c["specs"].append(name + "/s" + sfx)
+                return
             self.put(where, "@S%d" % i)
             self._c["actual"].append(["str", i])
             self._c["tags"].append("strlen~%s" % (len(s) if len(s) < 4 or 94 <= len(s) <= 102 else "other"))
@@ -654,8 +682,8 @@ class Gen:
         c["tags"] += ["total=%d" % (need + ALIGN(fill, 4)), "near-limit"]
 
     def need(self, spec, a, c):
-        if a[0] == "str":
-            return ALIGN(min(len(c["strings"][a[1]]) // 2, ARG_STR_MAX) + 2, 4)
+        if a[0] in ("str", "at"):
+            return ALIGN(min(len(str_bytes(c, a)), ARG_STR_MAX) + 2, 4)
         if a[0] == "null":
             return 8
         if a[0] == "bad":
@@ -671,8 +699,8 @@ class Gen:
     def display_len(self, c):
         n = 2
         for s, a in zip(c["specs"], c["actual"]):
-            if a[0] == "str":
-                n += 2 * min(len(c["strings"][a[1]]) // 2, ARG_STR_MAX) + 6
+            if a[0] in ("str", "at"):
+                n += 2 * min(len(str_bytes(c, a)), ARG_STR_MAX) + 6
             else:
                 n += 24
         return n
@@ -871,7 +899,8 @@ class Impl:
 
             def tok(t, sbase=sbase):
                 if isinstance(t, str) and t.startswith("@S"):
-                    return "@S%d" % (sbase + int(t[2:]))
+                    i, _, off = t[2:].partition("+")
+                    return "@S%d%s" % (sbase + int(i), "+" + off if off else "")
                 return str(t)
             c["tok"] = tok
             for i in range(nobj):
@@ -1131,8 +1160,11 @@ def resolve(c, t):
             return c["env"]["bad"]
         if t == "@BRK":
             return c["env"]["brk"]
-        if t == "@EDGE":
-            return c["env"]["edge"]
+        if t.startswith("@EDGE"):
+            return c["env"]["edge"] - (int(t[6:]) if t[5:6] == "-" else 0)
+        if t.startswith("@S") and "+" in t:
+            i, off = t[2:].split("+")
+            return c["env"]["saddr"][int(i)] + int(off)
         if t.startswith("@S"):
             return c["env"]["saddr"][int(t[2:])]
         if t.startswith("@F"):
@@ -1158,6 +1190,8 @@ def coq_aval(c, a):
         return "AStrAt i %s" % num(c["env"]["saddr"][a[1]])
     if a[0] == "null":
         return "ANull"
+    if a[0] == "at":
+        return "AStrAt i %s" % num(resolve(c, a[1]))
     if a[0] == "bad":
         return "ABad %s" % num(resolve(c, a[1] if len(a) > 1 else "@BAD"))
     if a[0] == "sym":
@@ -1174,10 +1208,14 @@ def coq_case(c):
     objs = cobjs(c)
     stk = [resolve(c, w) for w in c["stack"]]
     stk = stk + [0] * (23 - len(stk)) + [SENTINEL_RET]
+    pages = ""
+    if any(isinstance(w, str) and w.startswith("@EDGE") for w in c["regs"] + c["stack"] + c["ret"][:2]):
+        pages = "(%s, %s)" % (num(c["env"]["edge"] - 4096), blist(b"E" * 4095))      # the readable page in front of @EDGE
     inp = ("{| regs := %s; xmm := [%s]; stk := %s; rets := %s; strs := [%s]; wrds := [%s] |}"
            % (nlist(resolve(c, w) for w in c["regs"]), num(c.get("xmm0", 0)), nlist(stk),
               nlist(resolve(c, w) for w in c["ret"][:2]),
-              "; ".join("(%s, %s)" % (num(c["env"]["saddr"][i]), blist(s)) for i, s in sorted(strs.items())),
+              "; ".join(["(%s, %s)" % (num(c["env"]["saddr"][i]), blist(s)) for i, s in sorted(strs.items())]
+                        + ([pages] if pages else [])),
               "; ".join("(%s, %s)" % (num(c["env"]["saddr"][i] + 8 * j), num(resolve(c, w)))
                         for i, ws in sorted(objs.items()) for j, w in enumerate(ws))))
     f0 = c["env"]["f0"]
@@ -1270,9 +1308,9 @@ def judge_dump(c):
             continue
         byidx = {g[0]: g for g in got}
         for i, (sp, a) in enumerate(zip(pspecs, actual)):
-            if what == "args" and FMTS[sp["fmt"]] in ("FStr", "FStdStr") and a[0] in ("str", "null", "bad"):
+            if what == "args" and FMTS[sp["fmt"]] in ("FStr", "FStdStr") and a[0] in ("str", "at", "null", "bad"):
                 want = (b"NULL" if a[0] == "null" else ("<%#x>" % resolve(c, a[1] if len(a) > 1 else "@BAD")).encode()
-                        if a[0] == "bad" else cstrings(c)[a[1]])
+                        if a[0] == "bad" else str_bytes(c, a))
                 if len(want) > ARG_STR_MAX:
                     want = want[:ARG_STR_MAX - 3] + b"..."
                 gs = c["obs"].get("dump_strs", {}).get(i)
@@ -1295,8 +1333,8 @@ def fits(c, pspecs, actual):
     n = 0
     strs = cstrings(c)
     for sp, a in zip(pspecs, actual):
-        if a[0] == "str":
-            n += ALIGN(min(len(strs[a[1]]), ARG_STR_MAX) + 2, 4)
+        if a[0] in ("str", "at"):
+            n += ALIGN(min(len(str_bytes(c, a)), ARG_STR_MAX) + 2, 4)
         elif a[0] == "null":
             n += 8
         elif a[0] == "bad":
@@ -1312,6 +1350,7 @@ E2E_HEAD = """#include <complex.h>
 #include <string.h>
 struct big { long a, b, c; };
 struct pair { int x, y; };
+struct dd { double a, b; };
 enum color { RED, GREEN, BLUE = 5, MAUVE = 100001 };
 enum flags { FA = 1, FB = 2, FC = 4, FD = 0x100 };
 """
@@ -1327,7 +1366,7 @@ E2E_TYPES = [("int", "int", 32, True), ("unsigned int", "int", 32, False), ("lon
              ("char", "char", 8, True), ("const char *", "str", 64, False), ("double", "flt", 64, True),
              ("float", "flt", 32, True), ("long double", "flt", 80, True), ("struct big", "struct", 192, False),
              ("struct pair", "struct", 64, False), ("int *", "nullptr", 64, False), ("void (*%s)(void)", "fnptr", 64, False),
-             ("enum color", "enum", 32, False), ("enum flags", "enum", 32, False)]
+             ("enum color", "enum", 32, False), ("enum flags", "enum", 32, False), ("struct dd", "structdd", 128, False)]
 
 
 def int_cands(v, bits):
@@ -1386,6 +1425,9 @@ class E2EGen:
             sfx = {32: "f", 64: "", 80: "L"}[bits]
             fb = int.from_bytes(struct.pack("<f", v), "little") if bits == 32 else int.from_bytes(struct.pack("<d", v), "little")
             return "%r%s" % (v, sfx), ["txt", ["%f" % v], ["flt", 4 if bits == 32 else 8, fb, bits, v]]
+        if kind == "structdd":
+            a, b = r.choice([1.5, -2.25, 1024.125, 0.1, 3.0]), r.choice([2.25, 1e10, -0.5, 7.0])
+            return "(struct dd){%r, %r}" % (a, b), ["structv", struct.pack("<dd", a, b).hex()]
         if kind == "struct":
             return ("(struct big){1, 2, 3}" if "big" in ct else "(struct pair){7, 8}"), ["struct"]
         if kind == "nullptr":
@@ -1507,6 +1549,11 @@ def e2e_dump(ctx, impl, funcs, items, data, asan_dir=None):
                 elif t[0] == "null":
                     if line != b"str: NULL":
                         bad = b"NULL"
+                elif t[0] == "structv":
+                    m4 = re.search(rb"\n  " + re.escape(key) + rb"struct [^\n]*:((?:\n\t[0-9a-f ]+)+)", seg)
+                    got = bytes.fromhex(m4.group(1).decode().replace("\n", "").replace("\t", "").replace(" ", "")) if m4 else None
+                    if got != bytes.fromhex(t[1]):
+                        line, bad = got.hex() if got is not None else line, t[1]
                 elif t[0] == "txt" and len(t) > 2 and t[2][0] in ("ints", "flt", "str"):
                     m2 = re.match(rb"[a-zA-Z](\d+): 0x([0-9a-f]+)$", line or b"")
                     m3 = re.match(rb"enum \S+: .* \((-?\d+)\)$", line or b"")
@@ -1587,7 +1634,7 @@ def e2e_scripts(ctx, impl, funcs, items, d, data, exe, tag):
     return out
 
 
-def e2e_run(ctx, impl, funcs, tag, extra_opts=(), judge_ret=True, scripts=False):
+def e2e_run(ctx, impl, funcs, tag, extra_opts=(), judge_ret=True, scripts=False, nonleaf=False):
     """compile, record with --auto-args (+ extra -A/-R options), replay; returns list of (func, problem or None).
     judge_ret=False: the extra options put further return value specs in front, only the arguments and the
     completeness of the call sequence are judged"""
@@ -1614,16 +1661,22 @@ def e2e_run(ctx, impl, funcs, tag, extra_opts=(), judge_ret=True, scripts=False)
             specs[cur] = {"A": [], "R": []}
         elif line[:3] in ("A: ", "R: ") and cur:
             specs[cur][line[0]] = [x for x in line[3:].strip().lstrip("@").split(",") if x]
-    p = subprocess.run(["timeout", "60", uft, "replay", "--no-pager", "-f", "none", "--no-comment", "-d", data],
-                       capture_output=True, timeout=90)
+    p = subprocess.run(["timeout", "60", uft, "replay", "--no-pager", "-f", "none", "--no-comment"]
+                       + (["--no-event"] if nonleaf else []) + ["-d", data], capture_output=True, timeout=90)
     shown = {}
     order = []
-    for m in re.finditer(rb"(?m)^  (g\d+)(\(.*?\))( = .*)?;$", p.stdout):
-        shown[m.group(1).decode()] = (m.group(2), (m.group(3) + b";") if m.group(3) else b"")
-        order.append(m.group(1).decode())
+    if nonleaf:
+        # the functions carry event records (hidden by --no-event): "  gK(args) {\n  } = ret;"
+        for m in re.finditer(rb"(?m)^  (g\d+)(\(.*?\)) \{\n  \}( = .*;)?$", p.stdout):
+            shown[m.group(1).decode()] = (m.group(2), m.group(3) or b"")
+            order.append(m.group(1).decode())
+    else:
+        for m in re.finditer(rb"(?m)^  (g\d+)(\(.*?\))( = .*)?;$", p.stdout):
+            shown[m.group(1).decode()] = (m.group(2), (m.group(3) + b";") if m.group(3) else b"")
+            order.append(m.group(1).decode())
     items, out = [], []
     # every call of main, in order, and main's own exit: nothing behind a payload may be lost
-    want = ["g0"] + [f["name"] for f in funcs] if len(funcs) > 1 else None
+    want = ([] if nonleaf else ["g0"]) + [f["name"] for f in funcs] if len(funcs) > 1 else None
     if p.returncode != 0 or b"invalid rstack" in p.stderr or not re.search(rb"(?m)^\}", p.stdout) \
             or (want is not None and order != want):
         lost = next((f for f in funcs if f["name"] not in shown), funcs[-1])
@@ -1682,6 +1735,82 @@ def e2e_run(ctx, impl, funcs, tag, extra_opts=(), judge_ret=True, scripts=False)
     return out
 
 
+E2E_PTR_PROG = r'''
+#include <stdio.h>
+#include <string.h>
+#include <sys/mman.h>
+volatile int sink;
+__attribute__((noinline)) int p1(const char *s) { sink++; return 1; }
+__attribute__((noinline)) int p2(const char *s) { sink++; return 2; }
+__attribute__((noinline)) int p3(const char *s) { sink++; return 3; }
+__attribute__((noinline)) int p4(const char *s) { sink++; return 4; }
+__attribute__((noinline)) int p5(const char *s) { sink++; return 5; }
+__attribute__((noinline)) int p6(const char *s) { sink++; return 6; }
+__attribute__((noinline)) const char *p7(int x) { sink++; return (const char *)mark; }
+char *mark;
+int main(void) {
+  char *two = mmap(NULL, 8192, PROT_READ | PROT_WRITE, MAP_PRIVATE | MAP_ANONYMOUS, -1, 0);
+  memset(two, 'E', 4095);
+  two[4095] = 0;
+  mprotect(two + 4096, 4096, PROT_NONE);
+  mark = two + 4096;
+  printf("EDGE=%lx\n", (unsigned long)(two + 4096));
+  fflush(stdout);
+  p1(two);            /* first byte of the mapping */
+  p2(two + 4095);     /* its last byte: the NUL */
+  p3(two + 4096);     /* one past the end: PROT_NONE behind */
+  p4(two + 4092);
+  p5((const char *)0);
+  p6((const char *)16);  /* wild */
+  p7(7);              /* returns the one-past-the-end pointer */
+  puts("DONE");
+  return 0;
+}
+'''
+
+
+def e2e_pointers(ctx, impl):
+    """string pointers at the boundaries of a readable mapping, end to end: the traced program must run to its end
+    with its own output unchanged, and replay must show the strings / the raw address"""
+    d = os.path.join(ctx.scratch, "e2e-ptr")
+    shutil.rmtree(d, ignore_errors=True)
+    os.makedirs(d)
+    open(os.path.join(d, "p.c"), "w").write("char *mark;\n" + E2E_PTR_PROG.replace("char *mark;\n", "", 1))
+    exe = os.path.join(d, "p")
+    q = subprocess.run(["gcc", "-pg", "-g", "-O0", "-o", exe, os.path.join(d, "p.c")], capture_output=True, text=True, timeout=120)
+    if q.returncode != 0:
+        raise RuntimeError("pointer program does not compile: " + q.stderr[-800:])
+    plain = subprocess.run([exe], capture_output=True, timeout=30, cwd=d)
+    uft = os.path.join(impl.objdir, "uftrace")
+    for variant, opts in (("explicit", ["-A", "^p[1-6]$@arg1/s", "-R", "p7@retval/s"]), ("auto-args", ["-a"])):
+        data = os.path.join(d, "data-" + variant)
+        p = subprocess.run(["timeout", "60", uft, "record", "--no-pager", "--no-event", "--libmcount-path=" + impl.objdir]
+                           + opts + ["-d", data, exe], capture_output=True, timeout=90, cwd=d)
+        ctx.case(key=("e2e-pointers", variant), tags=["e2e:pointers:" + variant])
+        m = re.search(rb"EDGE=([0-9a-f]+)", p.stdout)
+        ok = p.returncode == 0 and m and b"DONE" in p.stdout and b"terminated by signal" not in p.stderr \
+            and re.sub(rb"EDGE=[0-9a-f]+", b"", p.stdout) == re.sub(rb"EDGE=[0-9a-f]+", b"", plain.stdout)
+        problem = None
+        if not ok:
+            problem = "the traced program does not run to its end with its own output: rc=%d stdout=%r stderr=%r" % (
+                p.returncode, p.stdout[-200:], p.stderr[-300:])
+        else:
+            edge = int(m.group(1), 16)
+            r = subprocess.run(["timeout", "60", uft, "replay", "--no-pager", "-f", "none", "--no-comment", "-F", "^p[1-7]$",
+                                "-d", data], capture_output=True, timeout=90)
+            want = [b'p1("' + b"E" * 95 + b'...")', b'p2("")', b'p3("<%#x>")' % edge, b'p4("EEE")', b'p5("NULL")',
+                    b'p6("<0x10>")', b'p7(7) = "<%#x>";' % edge]
+            got = [l.strip() for l in r.stdout.split(b"\n") if re.match(rb"\s*p[1-7]\(", l)]
+            got = [re.sub(rb"^(p[1-6]\(.*\))( = \d+)?;$", rb"\1", l) for l in got]
+            got = [re.sub(rb"^p7\(7?\)", b"p7(7)", l) for l in got]
+            if got != want:
+                problem = "replay shows %r, expected %r" % (got, want)
+        if problem:
+            ctx.violation("C09 violated end to end (string pointers at the boundaries of a readable mapping, %s): %s"
+                          % (variant, problem), {"mode": "e2e-pointers", "variant": variant, "program": E2E_PTR_PROG,
+                                                 "record_options": opts}, True)
+
+
 E2E_WITNESSES = [
     ("autoargs-complex",
      {"name": "g1", "types": ["double _Complex", "const char *", "signed char"], "rtype": "void",
@@ -1725,11 +1854,15 @@ def e2e(ctx, impl):
             funcs.append(g.function(len(funcs) + 1, types))
         # (a) --auto-args alone; (b) --auto-args plus explicit catch-all return value specs of both classes, so that
         # every function is matched by several -R options (an integer-class and a float-class value are recorded)
+        # (c) --auto-args plus an exit-time read trigger on every function: libc code runs inside the exit hook
+        # before the (floating-point) return value is captured
         both = ["-R", "^g[0-9]+$@retval/f", "-R", "^g[1-9][0-9]*$@retval/x"]
-        for variant, opts, judge_ret in (("auto-args", [], True), ("auto-args+explicit-retvals", both, False)):
+        rdtr = ["-T", "^g[1-9][0-9]*$@read=proc/statm"]
+        for variant, opts, judge_ret in (("auto-args", [], True), ("auto-args+explicit-retvals", both, False),
+                                         ("auto-args+read-trigger", rdtr, True)):
             nbad = 0
-            for f, problem in e2e_run(ctx, impl, funcs, "p%d%s" % (rnd, "x" if opts else ""), opts, judge_ret,
-                                      scripts=not opts):
+            for f, problem in e2e_run(ctx, impl, funcs, "p%d%s" % (rnd, "x" if opts is both else "r" if opts else ""),
+                                      opts, judge_ret, scripts=not opts, nonleaf=opts is rdtr):
                 if f is None:
                     ctx.broken("end-to-end run failed: " + problem)
                     continue
@@ -2005,11 +2138,12 @@ def run(ctx):
             c["specs"] += ["arg2/s", "arg3/i16"]
             c["actual"] += [["str", 0], ["int", c["regs"][2]]]
             cases.append(c)
-    for _ in range(ctx.n(330, 4200)):
+    for _ in range(ctx.n(290, 4200)):
         cases.append(g.call())
     batches, res = run_cases_through(ctx, impl, cases, "cases")
     count_cases(ctx, [c for b in batches for c in b])
     verdict(ctx, batches, res)
+    e2e_pointers(ctx, impl)
     found = e2e(ctx, impl)
     defect_witnesses(ctx, impl, found)
 
